@@ -41,6 +41,10 @@ def _mdp_cases(tier):
                   absorbing_kinds=("n", "n", "n", "n", "n", "abs")),
         mdp_specs("average", min_states=4, max_states=mx + 1, connect=False, max_out=1, max_actions=3, reward_lo=-2, reward_hi=9,
                   absorbing_kinds=("n", "n", "n", "n", "n", "abs")),
+        # large one-off rewards that differ by a hair (1000 vs 1000.005): differences that fall inside a relative tie
+        # tolerance in one place and outside an absolute one in another
+        mdp_specs("average", min_states=3, max_states=mx, connect=False, max_out=1, max_actions=3,
+                  reward_values=[0, 0, 1000, 1000.005, 999.995, 3000, 1, -1000], absorbing_kinds=("n", "n", "n", "n", "abs")),
     )
 
 
@@ -120,12 +124,17 @@ def prop_mpi(spec, ctx):
     scale = 1 + float(np.max(np.abs(g_enum)))
     if np.max(np.abs(g_enum - g_lp)) > 1e-6 * scale:
         raise HarnessError(f"gain references disagree: enumeration {g_enum} LP {g_lp}")
+    # (as in the discounted branch: the improvement steps keep the current action when another is better by less than
+    # np.isclose's tolerance - rtol 1e-5, atol 1e-8 - so the gain may fall short of the optimum by that band)
+    # The band applies to the bias step too, whose quantities are of the size of accumulated rewards (<= (n+1) * |r|max):
+    # a one-off reward difference inside that band can cost its share of the gain.
+    gtol = max(TOL * scale, 1e-5 * (n + 1) * ref.rmax_abs() + 1e-8)
     for s in states:
         g = float(res.state_gain[view.S[s]])
-        ctx.check(abs(g - g_enum[s]) <= TOL * scale, "C16.gain_optimal", lambda: f"state {s}: gain {g} optimal {g_enum[s]}")
+        ctx.check(abs(g - g_enum[s]) <= gtol, "C16.gain_optimal", lambda: f"state {s}: gain {g} optimal {g_enum[s]}")
     g_pi, _ = gain_of_policy(ref, pi)
     for s in states:
-        ctx.check(abs(g_pi[s] - g_enum[s]) <= TOL * scale, "C16.policy_attains_optimal_gain",
+        ctx.check(abs(g_pi[s] - g_enum[s]) <= gtol, "C16.policy_attains_optimal_gain",
                   lambda: f"state {s}: gain of returned policy {g_pi[s]} optimal {g_enum[s]}")
     if max_classes >= 2:
         ctx.event("multichain")
